@@ -192,3 +192,62 @@ T("all-datatypes-repr-and-order", ALL, DT,
   "    def __repr__(self) -> str:\n        return \"Output(%s, %s)\" % (self.value, self.public_key)\n", "    def __repr__(self) -> str:\n        return \"Output(value=%s, key=%s)\" % (self.value, self.public_key)\n\n    def is_dust(self) -> bool:\n        return self.value < 10\n")
 T("all-blockstore-local-names", ALL, BS,
   "        cur = self.connection.cursor()\n        cur.execute('BEGIN TRANSACTION')", "        cursor = self.connection.cursor()\n        cur = cursor\n        cur.execute('BEGIN TRANSACTION')")
+
+T("c11-drain-loop", ["C11", "C20"], RP,
+  """        self.buffer += data
+
+        if not self.magic_read and len(self.buffer) >= 4:
+            magic = self.buffer[:4]
+            if magic != MAGIC:
+                raise Exception("Insufficient magic")
+            else:
+                self.magic_read = True
+
+            self.buffer = self.buffer[4:]
+
+        if self.len is None and len(self.buffer) >= 4:
+            (self.len,) = struct.unpack(b">I", self.buffer[:4])
+
+            if self.len > MAX_MESSAGE_SIZE:  # type: ignore
+                raise Exception("len > MAX_MESSAGE_SIZE")
+
+            self.buffer = self.buffer[4:]
+
+        if self.len is not None and self.len <= len(self.buffer):
+            self.handle_message_data(self.buffer[:self.len])
+
+            self.buffer = self.buffer[self.len:]
+            self.magic_read = False
+            self.len = None
+            self.receive(b"")  # recurse to repeat (multiple messages could be received in a single socket read)
+""",
+  """        self.buffer += data
+
+        while True:
+            if not self.magic_read and len(self.buffer) >= 4:
+                magic = self.buffer[:4]
+                if magic != MAGIC:
+                    raise Exception("Insufficient magic")
+                else:
+                    self.magic_read = True
+
+                self.buffer = self.buffer[4:]
+
+            if self.len is None and len(self.buffer) >= 4:
+                (self.len,) = struct.unpack(b">I", self.buffer[:4])
+
+                if self.len > MAX_MESSAGE_SIZE:  # type: ignore
+                    raise Exception("len > MAX_MESSAGE_SIZE")
+
+                self.buffer = self.buffer[4:]
+
+            if self.len is not None and self.len <= len(self.buffer):
+                self.handle_message_data(self.buffer[:self.len])
+
+                self.buffer = self.buffer[self.len:]
+                self.magic_read = False
+                self.len = None
+                continue
+
+            break
+""")
